@@ -341,6 +341,34 @@ Proof.
     unfold arr_index. destruct (Z.leb_spec 0 i) as [Hz'|Hz']; [|lia]. auto.
 Qed.
 
+Lemma rm_field_inner m f s' p' prune :
+  rm (VObj m) (SField f :: s' :: p') prune =
+  match obj_get m f with
+  | Some c' =>
+      match rm c' (s' :: p') prune with
+      | Some (prev, c'') =>
+          Some (prev, VObj (if prune && is_empty_coll c'' then obj_remove m f else obj_set m f c''))
+      | None => None
+      end
+  | None => None
+  end.
+Proof. reflexivity. Qed.
+
+Lemma rm_index_inner a i s' p' prune :
+  rm (VArr a) (SIndex i :: s' :: p') prune =
+  match arr_get a i with
+  | Some c' =>
+      match rm c' (s' :: p') prune with
+      | Some (prev, c'') =>
+          Some (prev, VArr (if prune && is_empty_coll c''
+                            then match arr_remove a i with Some (_, a') => a' | None => a end
+                            else arr_set a i c''))
+      | None => None
+      end
+  | None => None
+  end.
+Proof. reflexivity. Qed.
+
 (* ---------- the last segment: a field ---------- *)
 
 Lemma union_HU x y v : union_compat x y = true -> member v x = true \/ member v y = true -> member v (union x y) = true.
@@ -481,7 +509,7 @@ Proof.
            assert (coll_at bytes_eqb (set_known c (aset bytes_cmp (known c) f child')) f = child') as Hcf.
            { rewrite (coll_at_set bytes_eqb bytes_cmp bytes_eqb_eq bytes_cmp_eq), bytes_eqb_refl. reflexivity. }
            assert (coll_at bytes_eqb c f = child) as Hcc by (unfold coll_at; rewrite E; reflexivity).
-           unfold rm_res. cbn [rm]. destruct (obj_get m f) as [cv|] eqn:Eg.
+           unfold rm_res. rewrite rm_field_inner. destruct (obj_get m f) as [cv|] eqn:Eg.
            ++ pose proof (obj_ok_elem _ _ _ _ Hm (obj_get_in _ _ _ Eg)) as Hcv. rewrite Hcc in Hcv.
               specialize (IH child cv (Hwfc _ _ (obj_get_in _ _ _ Eg)) Hlast Hok (or_introl eq_refl) Hcv).
               rewrite Er in IH. cbn [fst] in IH. unfold rm_res in IH.
@@ -491,23 +519,23 @@ Proof.
                      +++ rewrite Hcf. exact IH.
                      +++ rewrite Hpt by auto. eapply obj_ok_elem; eauto.
                  --- intros g Hg. destruct (bytes_eqb g f) eqn:Egf.
-                     +++ apply bytes_eqb_eq in Egf; subst. rewrite obj_get_set_same in Hg. discriminate.
+                     +++ apply bytes_eqb_eq in Egf; subst g. rewrite obj_get_set_same in Hg. discriminate.
                      +++ apply bytes_eqb_neq in Egf. rewrite obj_get_set_other in Hg by auto.
                          rewrite Hpt by auto. eapply obj_ok_absent; eauto.
               ** rewrite member_obj. cbn [obj_of]. apply obj_ok_intro.
                  --- intros g w Hin. destruct (bytes_eqb g f) eqn:Egf.
-                     +++ apply bytes_eqb_eq in Egf; subst. rewrite Hcf.
+                     +++ apply bytes_eqb_eq in Egf; subst g. rewrite Hcf.
                          rewrite (sorted_in_get _ Hs _ _ Hin) in Eg. inversion Eg; subst. exact IH.
                      +++ apply bytes_eqb_neq in Egf. rewrite Hpt by auto. eapply obj_ok_elem; eauto.
                  --- intros g Hg. destruct (bytes_eqb g f) eqn:Egf.
-                     +++ apply bytes_eqb_eq in Egf; subst. congruence.
+                     +++ apply bytes_eqb_eq in Egf; subst g. congruence.
                      +++ apply bytes_eqb_neq in Egf. rewrite Hpt by auto. eapply obj_ok_absent; eauto.
            ++ rewrite member_obj. cbn [obj_of]. apply obj_ok_intro.
               ** intros g w Hin. destruct (bytes_eqb g f) eqn:Egf.
-                 --- apply bytes_eqb_eq in Egf; subst. exfalso. eapply in_obj_get; eauto.
+                 --- apply bytes_eqb_eq in Egf; subst g. exfalso. eapply in_obj_get; eauto.
                  --- apply bytes_eqb_neq in Egf. rewrite Hpt by auto. eapply obj_ok_elem; eauto.
               ** intros g Hg. destruct (bytes_eqb g f) eqn:Egf.
-                 --- apply bytes_eqb_eq in Egf; subst. rewrite Hcf.
+                 --- apply bytes_eqb_eq in Egf; subst g. rewrite Hcf.
                      pose proof (obj_ok_absent _ _ _ Hm Eg) as Hu. rewrite Hcc in Hu.
                      assert (is_never child = false) as Hnc.
                      { destruct (is_never child) eqn:Hnc; auto. rewrite (is_never_eq _ Hnc) in Hu. discriminate. }
@@ -517,7 +545,7 @@ Proof.
         -- apply negb_true_iff in Hok.
            rewrite (at_path_absent_field k c f _ Hn Ho E Hok), remove_inner_undefined by congruence.
            unfold compact_o. cbn [snd]. rewrite compact_CNever. cbn [fst].
-           unfold rm_res. cbn [rm]. destruct (obj_get m f) as [cv|] eqn:Eg; [|rewrite member_obj_kind; exact Hm].
+           unfold rm_res. rewrite rm_field_inner. destruct (obj_get m f) as [cv|] eqn:Eg; [|rewrite member_obj_kind; exact Hm].
            pose proof (obj_ok_elem _ _ _ _ Hm (obj_get_in _ _ _ Eg)) as Hcv. unfold coll_at in Hcv.
            rewrite E, (not_defined_no_member _ _ Hok) in Hcv. discriminate.
     + (* ---- index (never the last segment here) ---- *)
@@ -546,7 +574,7 @@ Proof.
                           = if Nat.eqb idx n then child' else coll_at Nat.eqb c n) as Hat.
         { intros n. apply (coll_at_set Nat.eqb Nat.compare nat_eqb_spec' nat_cmp_spec'). }
         assert (coll_at Nat.eqb c idx = child) as Hcc by (unfold coll_at; rewrite E; reflexivity).
-        unfold rm_res. cbn [rm]. rewrite Hget. destruct (nth_error vs idx) as [cv|] eqn:Eg.
+        unfold rm_res. rewrite rm_index_inner. rewrite Hget. destruct (nth_error vs idx) as [cv|] eqn:Eg.
         -- pose proof (arr_ok_elem _ _ _ _ Hm Eg) as Hcv. rewrite Hcc in Hcv.
            assert (idx < length vs) as Hlt by (apply nth_error_Some; congruence).
            specialize (IH child cv (wf_arr _ Hwf _ _ Eg) Hlast Hok (or_introl eq_refl) Hcv).
@@ -576,7 +604,58 @@ Proof.
       * apply negb_true_iff in Hok.
         rewrite (at_path_absent_index k c i idx _ Hn Ha Hr E Hok), remove_inner_undefined by congruence.
         unfold compact_a. cbn [snd]. rewrite compact_CNever. cbn [fst].
-        unfold rm_res. cbn [rm]. rewrite Hget. destruct (nth_error vs idx) as [cv|] eqn:Eg; [|rewrite member_arr_kind; exact Hm].
+        unfold rm_res. rewrite rm_index_inner. rewrite Hget. destruct (nth_error vs idx) as [cv|] eqn:Eg; [|rewrite member_arr_kind; exact Hm].
         pose proof (arr_ok_elem _ _ _ _ Hm Eg) as Hcv. unfold coll_at in Hcv.
         rewrite E, (not_defined_no_member _ _ Hok) in Hcv. discriminate.
+Qed.
+
+Lemma compact_not_panic {K} (rk : coll_ K kind -> K -> coll_ K kind) cu co (c : coll_ K kind) key cpt :
+  co <> CPanic -> snd (compact rk cu co c key cpt) <> CPanic.
+Proof.
+  destruct co; cbn; try congruence; intros _;
+    destruct cpt; cbn; try discriminate;
+    match goal with |- co_of_empty ?e <> _ => destruct e; discriminate end.
+Qed.
+
+Lemma remove_inner_single_field_co k f cpt : snd (remove_inner k [SField f] cpt) <> CPanic.
+Proof.
+  destruct (is_never k) eqn:Hn; [cbn [remove_inner]; rewrite Hn; discriminate|].
+  destruct (obj_of k) as [c|] eqn:Ho; [|rewrite remove_inner_field_none by auto; discriminate].
+  rewrite (remove_inner_field k f [] cpt c Hn Ho).
+  destruct (aget bytes_eqb (known c) f) as [child|].
+  - pose proof (remove_inner_nil_co child cpt) as Hco. destruct (remove_inner child [] cpt) as [child' co].
+    cbn [snd] in Hco. pose proof (compact_not_panic remove_known_o cunion_o co
+      (set_known c (aset bytes_cmp (known c) f child')) f cpt Hco) as H.
+    unfold compact_o. destruct (compact _ _ co _ f cpt). exact H.
+  - pose proof (remove_inner_nil_co (at_path k [SField f]) cpt) as Hco.
+    pose proof (compact_not_panic remove_known_o cunion_o _ c f cpt Hco) as H.
+    unfold compact_o. destruct (compact _ _ _ c f cpt). exact H.
+Qed.
+
+Theorem remove_sound_fields v k p cpt :
+  wf_value v = true -> last_field p = true -> remove_ok k p cpt = true -> member v k = true ->
+  snd (kremove k p cpt) = false /\ member (snd (remove v p cpt)) (fst (fst (kremove k p cpt))) = true.
+Proof.
+  intros Hwf Hlast Hok Hm. unfold remove_ok in Hok. apply andb_true_iff in Hok. destruct Hok as [Hc Hok].
+  destruct p as [|s p].
+  - (* the root *)
+    split; [reflexivity|]. cbn [kremove remove fst snd].
+    pose proof (member_not_never _ _ Hm) as Hn.
+    unfold contains_object, contains_array, contains_primitive. rewrite Hn, !orb_false_r.
+    destruct k as [pr a o]. destruct v; cbn in Hm |- *;
+      try (destruct pr; unfold p_is_none; cbn in *; rewrite Hm; rewrite ?orb_true_r; cbn; reflexivity).
+    + destruct o; [reflexivity | discriminate].
+    + destruct a; [reflexivity | discriminate].
+  - assert (cpt = false \/ length (s :: p) <= 1) as Hc'.
+    { apply orb_true_iff in Hc. destruct Hc as [Hc|Hc]; [left; apply negb_true_iff; auto | right; apply Nat.leb_le; auto]. }
+    pose proof (rm_sound cpt (s :: p) k v Hwf Hlast Hok Hc' Hm) as Hs.
+    unfold kremove, remove. destruct (remove_inner k (s :: p) cpt) as [k' co] eqn:Er. cbn [fst snd] in *.
+    split.
+    + destruct Hc' as [->|Hl].
+      * pose proof (remove_inner_co (s :: p) k ltac:(congruence) Hok) as Hco. rewrite Er in Hco. cbn in Hco.
+        subst co. reflexivity.
+      * destruct p; [|cbn in Hl; lia]. destruct s as [f|i]; [|discriminate].
+        pose proof (remove_inner_single_field_co k f cpt) as Hco. rewrite Er in Hco. cbn in Hco.
+        destruct co; congruence.
+    + unfold rm_res in Hs. destruct (rm v (s :: p) cpt) as [[prev v']|]; exact Hs.
 Qed.
